@@ -140,6 +140,180 @@ def natToBits : Nat → Nat → List Bool
   | 0, _ => []
   | k + 1, n => (n % 2 == 1) :: natToBits k (n / 2)
 
+/-! ## arrays (non-mutual helpers) -/
+
+def iterEnc (f : Val → Option Bytes) : List Val → Option Bytes
+  | [] => some []
+  | v :: vs => match f v, iterEnc f vs with
+      | some b, some bs => some (b ++ bs)
+      | _, _ => Option.none
+
+def iterDec (f : Bytes → Except Err (Val × Bytes)) : Nat → Bytes → Except Err (List Val × Bytes)
+  | 0, bs => .ok ([], bs)
+  | n + 1, bs => match f bs with
+      | .error x => .error x
+      | .ok (v, r) => match iterDec f n r with
+          | .error x => .error x
+          | .ok (vs, r') => .ok (v :: vs, r')
+
+/-- decode elements until the input is exhausted; every element must consume at least one byte -/
+def iterDecAll (f : Bytes → Except Err (Val × Bytes)) : Nat → Bytes → Except Err (List Val)
+  | _, [] => .ok []
+  | 0, _ :: _ => .error .noProgress
+  | fuel + 1, bs => match f bs with
+      | .error x => .error x
+      | .ok (v, r) =>
+        if r.length < bs.length then
+          match iterDecAll f fuel r with
+          | .error x => .error x
+          | .ok vs => .ok (v :: vs)
+        else .error .noProgress
+
+/-- like `iterEnc`, but every element must encode to at least one byte (endless arrays) -/
+def iterEnc1 (f : Val → Option Bytes) : List Val → Option Bytes
+  | [] => some []
+  | v :: vs => match f v, iterEnc1 f vs with
+      | some (x :: b), some bs => some ((x :: b) ++ bs)
+      | _, _ => Option.none
+
+/-! ## built-in types with a codec inside the semantics
+
+Hand-written in `wow_world_messages/src/util/functions/{shared,wrath}.rs`: the two achievement arrays of Wrath (elements that start with a
+u32 id, terminated by the id 0xFFFFFFFF) and `MonsterMoveSplines` (u32 count, a full first point, packed further points).  They are
+sequences of four basic fields; everything is built from the integer / packed-guid primitives above, so the leaf codecs below can
+dispatch to them.  The other built-in names stay outside (`.other`). -/
+inductive PrimKind where
+  | achDone | achProg | splines | other
+  deriving Repr, DecidableEq, Inhabited
+
+def primKind (name : String) : PrimKind :=
+  if name = "AchievementDoneArray" then .achDone
+  else if name = "AchievementInProgressArray" then .achProg
+  else if name = "MonsterMoveSplines" then .splines
+  else .other
+
+def sentinelId : Nat := 4294967295
+
+/-- basic fields of the built-in element layouts -/
+inductive BLeaf where
+  | u32        -- bit-transparent 32-bit value (ids, times, f32 / packed point bit patterns)
+  | pg         -- packed guid
+  | bool32     -- 0 / 1 sent as u32; any non-zero value reads as 1
+  | dt         -- DateTime
+  deriving Repr, DecidableEq, Inhabited
+
+def encB : BLeaf → Nat → Option Bytes
+  | .u32, n => encInt 4 .le n
+  | .pg, n => if n < 256 ^ 8 then let (m, p) := packBytes (encLE 8 n); some (UInt8.ofNat (bitsToNat m) :: p) else Option.none
+  | .bool32, n => if n ≤ 1 then encInt 4 .le n else Option.none
+  | .dt, n => if n < 4294967296 ∧ dateTimeValid n then encInt 4 .le n else Option.none
+
+def decB : BLeaf → Bytes → Except Err (Nat × Bytes)
+  | .u32, bs => decInt 4 .le bs
+  | .pg, bs => match bs with
+      | [] => .error .eof
+      | m :: r => match unpackBytes (natToBits 8 m.toNat) r with
+          | .ok (g, rest) => .ok (decLE g, rest)
+          | .error x => .error x
+  | .bool32, bs => match decInt 4 .le bs with
+      | .ok (n, r) => .ok ((if n = 0 then 0 else 1), r)
+      | .error x => .error x
+  | .dt, bs => match decInt 4 .le bs with
+      | .ok (n, r) => if dateTimeValid n then .ok (n, r) else .error (.dateTime n)
+      | .error x => .error x
+
+/-- a fixed sequence of basic fields; the value is one `.nat` per field -/
+def encBs : List BLeaf → List Val → Option Bytes
+  | [], [] => some []
+  | l :: ls, .nat n :: vs => match encB l n, encBs ls vs with
+      | some b, some bs => some (b ++ bs)
+      | _, _ => Option.none
+  | _, _ => Option.none
+
+def decBs : List BLeaf → Bytes → Except Err (List Val × Bytes)
+  | [], bs => .ok ([], bs)
+  | l :: ls, bs => match decB l bs with
+      | .error x => .error x
+      | .ok (n, r) => match decBs ls r with
+          | .error x => .error x
+          | .ok (vs, r') => .ok (.nat n :: vs, r')
+
+/-- elements `id :: fields`, terminated by the sentinel id -/
+def encSent (ls : List BLeaf) : List Val → Option Bytes
+  | [] => encInt 4 .le sentinelId
+  | .tuple (.nat id :: fs) :: vs =>
+      if id < sentinelId then
+        match encBs ls fs, encSent ls vs with
+        | some b, some bs => some (encLE 4 id ++ b ++ bs)
+        | _, _ => Option.none
+      else Option.none
+  | _ => Option.none
+
+def decSent (ls : List BLeaf) : Nat → Bytes → Except Err (List Val × Bytes)
+  | 0, _ => .error .noProgress
+  | fuel + 1, bs => match decInt 4 .le bs with
+      | .error x => .error x
+      | .ok (id, r) =>
+        if id = sentinelId then .ok ([], r) else
+        match decBs ls r with
+        | .error x => .error x
+        | .ok (fs, r2) => match decSent ls fuel r2 with
+            | .error x => .error x
+            | .ok (vs, r3) => .ok (.tuple (.nat id :: fs) :: vs, r3)
+
+def tupleOf (ls : List BLeaf) (v : Val) : Option Bytes :=
+  match v with
+  | .tuple fs => encBs ls fs
+  | _ => Option.none
+
+def decTuple (ls : List BLeaf) (bs : Bytes) : Except Err (Val × Bytes) :=
+  match decBs ls bs with
+  | .ok (fs, r) => .ok (.tuple fs, r)
+  | .error x => .error x
+
+/-- spline list: u32 count; the first point in full (three f32 bit patterns), the others packed into one u32 each -/
+def encSplines : List Val → Option Bytes
+  | [] => encInt 4 .le 0
+  | p :: ps =>
+      match encInt 4 .le (ps.length + 1), tupleOf [.u32, .u32, .u32] p, iterEnc (tupleOf [.u32]) ps with
+      | some c, some b, some bs => some (c ++ b ++ bs)
+      | _, _, _ => Option.none
+
+def decSplines (bs : Bytes) : Except Err (List Val × Bytes) :=
+  match decInt 4 .le bs with
+  | .error x => .error x
+  | .ok (n, r) =>
+    match n with
+    | 0 => .ok ([], r)
+    | k + 1 => match decTuple [.u32, .u32, .u32] r with
+        | .error x => .error x
+        | .ok (p, r2) => match iterDec (decTuple [.u32]) k r2 with
+            | .error x => .error x
+            | .ok (ps, r3) => .ok (p :: ps, r3)
+
+def achDoneFields : List BLeaf := [.dt]
+def achProgFields : List BLeaf := [.pg, .pg, .bool32, .dt, .u32, .u32]
+
+def encPrim (name : String) (v : Val) : Option Bytes :=
+  match primKind name, v with
+  | .achDone, .list vs => encSent achDoneFields vs
+  | .achProg, .list vs => encSent achProgFields vs
+  | .splines, .list vs => encSplines vs
+  | _, _ => Option.none
+
+def decPrim (name : String) (bs : Bytes) : Except Err (Val × Bytes) :=
+  match primKind name with
+  | .achDone => match decSent achDoneFields (bs.length + 1) bs with
+      | .ok (vs, r) => .ok (.list vs, r)
+      | .error x => .error x
+  | .achProg => match decSent achProgFields (bs.length + 1) bs with
+      | .ok (vs, r) => .ok (.list vs, r)
+      | .error x => .error x
+  | .splines => match decSplines bs with
+      | .ok (vs, r) => .ok (.list vs, r)
+      | .error x => .error x
+  | .other => .error (.unsupported name)
+
 def encLeaf (l : Leaf) (v : Val) : Option Bytes :=
   match l, v with
   | .int k e, .nat n => encInt k e n
@@ -153,6 +327,7 @@ def encLeaf (l : Leaf) (v : Val) : Option Bytes :=
   | .string, .bytes s => (encInt 1 .le s.length).map (· ++ s)
   | .packedGuid, .nat n =>
       if n < 256 ^ 8 then let (m, p) := packBytes (encLE 8 n); some (UInt8.ofNat (bitsToNat m) :: p) else Option.none
+  | .prim name, v => encPrim name v
   | _, _ => Option.none
 
 def splitAtZero : Bytes → Option (Bytes × Bytes)
@@ -196,43 +371,7 @@ def decLeaf (l : Leaf) (bs : Bytes) : Except Err (Val × Bytes) :=
       | m :: r => match unpackBytes (natToBits 8 m.toNat) r with
           | .ok (g, rest) => .ok (.nat (decLE g), rest)
           | .error x => .error x
-  | .prim n => .error (.unsupported n)
-
-/-! ## arrays (non-mutual helpers) -/
-
-def iterEnc (f : Val → Option Bytes) : List Val → Option Bytes
-  | [] => some []
-  | v :: vs => match f v, iterEnc f vs with
-      | some b, some bs => some (b ++ bs)
-      | _, _ => Option.none
-
-def iterDec (f : Bytes → Except Err (Val × Bytes)) : Nat → Bytes → Except Err (List Val × Bytes)
-  | 0, bs => .ok ([], bs)
-  | n + 1, bs => match f bs with
-      | .error x => .error x
-      | .ok (v, r) => match iterDec f n r with
-          | .error x => .error x
-          | .ok (vs, r') => .ok (v :: vs, r')
-
-/-- decode elements until the input is exhausted; every element must consume at least one byte -/
-def iterDecAll (f : Bytes → Except Err (Val × Bytes)) : Nat → Bytes → Except Err (List Val)
-  | _, [] => .ok []
-  | 0, _ :: _ => .error .noProgress
-  | fuel + 1, bs => match f bs with
-      | .error x => .error x
-      | .ok (v, r) =>
-        if r.length < bs.length then
-          match iterDecAll f fuel r with
-          | .error x => .error x
-          | .ok vs => .ok (v :: vs)
-        else .error .noProgress
-
-/-- like `iterEnc`, but every element must encode to at least one byte (endless arrays) -/
-def iterEnc1 (f : Val → Option Bytes) : List Val → Option Bytes
-  | [] => some []
-  | v :: vs => match f v, iterEnc1 f vs with
-      | some (x :: b), some bs => some ((x :: b) ++ bs)
-      | _, _ => Option.none
+  | .prim n => decPrim n bs
 
 /-- a constant field always carries its constant -/
 def roleOk (role : Role) (v : Val) : Bool :=
